@@ -13,7 +13,16 @@ import KavaVerif.Model.Vesting
                result kind' modBal' bal' start' end' ov' dv' periods' samples raw valid
              `SendTimeLockedCoinsToAccount` on the real app; samples `t:V:V':L:L':S:S'` add the real bank
              `LockedCoins` / `SpendableCoins`; raw = `modBal|bal|acctUnchanged` read from the keeper's own
-             context right after a refusal (before any rollback).
+             context right after a refusal (before any rollback); an optional 4th part is 1/0 = the bank's
+             total supply is unchanged in that context.
+  c20.guard  now kind blocked modBal bal start end ov dv periods amt length coinsValid supply =>
+               result kind' modBal' bal' start' end' ov' dv' periods' supply' same valid
+             one `SendTimeLockedCoinsToAccount` call made directly on a context of its own and observed on
+             that same context (no CacheContext around the call, nothing rolled back): multi-denom amounts
+             against module balances that are absent / short / exact / ample per denom. `coinsValid` = 0
+             for a deliberately malformed `sdk.Coins` (unsorted / duplicate denoms; `amt` is then the
+             per-denom sum). `same` = four 1/0 flags computed by the harness over ALL denoms and the whole
+             account record: module balances, recipient balances, total supply, stored account unchanged.
 
   `samples` is the single word `panic` when an observation call into the SDK panicked; `valid` is the real
   post account's own `Validate()` (1/0, `-` when there is none).
@@ -182,6 +191,25 @@ def showAcct (k : Acct) : String :=
   | .periodic a => s!"periodic {showPVA a}"
   | k => kindOf k
 
+/-- `C20_refused_no_move` on the implementation's own observation: after a call that returned an error the
+    keeper's context (read without any rollback) holds the same module balances, recipient balances and
+    recipient account as before; `acctSame` / `restSame` are what the harness compared itself (the stored
+    account record; supply and balances over all denoms). -/
+def refusedPred (kind : String) (length : Int) (amt modBal modBal' bal bal' : Coins)
+    (acctSame restSame : Bool) : Option String :=
+  let ctx := s!"kind={kind} length={length} amt={showCoins amt} modBal={showCoins modBal}"
+  match denoms.find? (fun d => modBal' d != modBal d) with
+  | some d => some (predfail "C20_refused_no_move"
+      s!"module-balance-changed d={d} {ctx} modBal'={showCoins modBal'} bal={showCoins bal} bal'={showCoins bal'}")
+  | none =>
+    match denoms.find? (fun d => bal' d != bal d) with
+    | some d => some (predfail "C20_refused_no_move"
+        s!"recipient-balance-changed d={d} {ctx} bal={showCoins bal} bal'={showCoins bal'}")
+    | none =>
+      if !acctSame then some (predfail "C20_refused_no_move" s!"account-changed {ctx}")
+      else if !restSame then some (predfail "C20_refused_no_move" s!"supply-or-other-denom-changed {ctx}")
+      else none
+
 def handleSend : Handler
   | [now, kind, blocked, modBal, bal, start, endT, ov, dv, periods, amt, length, _,
      result, kind', modBal', bal', start', endT', ov', dv', periods', samples, raw, valid] =>
@@ -242,14 +270,15 @@ def handleSend : Handler
         | _, _, _, _ => badInput "post"
       | "err" =>
         -- refusal must move nothing, seen in the keeper's own context (no rollback involved)
-        match raw.splitOn "|" with
-        | [rm, rb, same] =>
+        let parts := raw.splitOn "|"
+        match parts with
+        | rm :: rb :: same :: rest =>
           match coins? rm, coins? rb with
           | some rm, some rb =>
             verdict clsCmp <|
-            if !coinsEq rm modBal || !coinsEq rb bal || same != "1" then
-              predfail "C20_dispatch" s!"refused-moved-funds kind={kind}"
-            else
+            match refusedPred kind length amt modBal rm bal rb (same == "1") (rest.all (· == "1")) with
+            | some r => r
+            | none =>
               let eligible := sufficient && !blocked &&
                 ((length == 0 && kind != "none") || kind == "base" || kind == "periodic")
               if eligible then predfail "C20_dispatch" s!"refused-eligible kind={kind}" else "ok"
@@ -258,6 +287,71 @@ def handleSend : Handler
       | "panic" => predfail "C20_dispatch" s!"panic kind={kind}"
       | _ => badInput "result"
     | _, _, _, _, _, _, _ => badInput "parse"
+  | _ => badInput "arity"
+
+/-! ### c20.guard -/
+
+def handleGuard : Handler
+  | [now, kind, blocked, modBal, bal, start, endT, ov, dv, periods, amt, length, coinsValid, supply, _,
+     result, kind', modBal', bal', start', endT', ov', dv', periods', supply', same, valid] =>
+    match int? now, acct? kind start endT ov dv periods, bool? blocked, coins? modBal, coins? bal,
+          coins? amt, int? length, bool? coinsValid, coins? supply,
+          acct? kind' start' endT' ov' dv' periods', coins? modBal', coins? bal', coins? supply' with
+    | some now, some acct, some blocked, some modBal, some bal, some amt, some length, some coinsValid,
+      some supply, some acct', some modBal', some bal', some supply' =>
+      let w : World := ⟨modBal, bal, acct, blocked⟩
+      -- (1) the rollback-free model against the keeper's own context (a malformed coin set is refused by
+      --     the guard or by the bank's validity check before anything is touched)
+      let k := if coinsValid then sendTimeLockedK now w amt length else (w, false)
+      let cmp := allOk [expectEq "result" (if k.2 then "ok" else "err") result,
+                        expectEq "modBal" (showCoins k.1.modBal) (showCoins modBal'),
+                        expectEq "bal" (showCoins k.1.bal) (showCoins bal'),
+                        expectEq "account" (showAcct k.1.acct) (showAcct acct')]
+      let sufficient := denoms.all fun d => amt d ≤ modBal d
+      let flags := same.trimAscii.toString
+      let acctSame := showAcct acct' == showAcct acct && flags.toList.getD 3 '0' == '1'
+      let restSame := coinsEq supply' supply && flags.toList.take 3 == ['1', '1', '1']
+      verdict cmp <|
+      -- (2) predicates on the implementation's observation
+      match result with
+      | "err" =>
+        match refusedPred kind length amt modBal modBal' bal bal' acctSame restSame with
+        | some r => r
+        | none =>
+          let eligible := coinsValid && sufficient && !blocked &&
+            ((length == 0 && kind != "none") || kind == "base" || kind == "periodic")
+          if eligible then predfail "C20_dispatch" s!"refused-eligible kind={kind}" else "ok"
+      | "ok" =>
+        if !coinsValid then "ok"
+        else if !sufficient then predfail "C20_dispatch" "insufficient-accepted"
+        else if length != 0 && !(kind == "base" || kind == "periodic") then
+          predfail "C20_dispatch" s!"accepted-{kind}"
+        else if blocked then predfail "C20_dispatch" "accepted-blocked"
+        else if !coinsEq modBal' (Coins.sub modBal amt) then predfail "C20_dispatch" "module-debit-not-amt"
+        else if !coinsEq bal' (Coins.add bal amt) then predfail "C20_dispatch" "recipient-credit-not-amt"
+        else if !coinsEq supply' supply then predfail "C20_dispatch" "supply-changed"
+        else if length == 0 then
+          if showAcct acct' != showAcct acct then predfail "C20_dispatch" "account-changed-without-lockup" else "ok"
+        else if length < 0 then "ok"
+        else
+          let preWf := match acct with | .periodic a => (wfTag a).isNone | _ => true
+          if !preWf then "ok" else
+          match acct' with
+          | .periodic b =>
+            match wfTag b with
+            | some tag => predfail "C20_wellformed_preserved" tag
+            | none =>
+              let ovPre : Coins := match acct with | .periodic a => a.ov | _ => Coins.zero
+              let dvPre : Coins := match acct with | .periodic a => a.dv | _ => Coins.zero
+              if valid == "0" then predfail "C20_wellformed_preserved" "validate-fails"
+              else if !coinsEq b.ov (Coins.add ovPre amt) then
+                predfail "C20_wellformed_preserved" "original-vesting-not-plus-amt"
+              else if !coinsEq b.dv dvPre then predfail "C20_wellformed_preserved" "delegated-vesting-changed"
+              else "ok"
+          | _ => predfail "C20_dispatch" "recipient-not-periodic-after-lockup"
+      | "panic" => predfail "C20_dispatch" s!"panic kind={kind}"
+      | _ => badInput "result"
+    | _, _, _, _, _, _, _, _, _, _, _, _, _ => badInput "parse"
   | _ => badInput "arity"
 
 /-! ### c20.cal -/
@@ -325,5 +419,5 @@ def handleCal : Handler
 
 /-- handlers of property C20: (command name, handler) -/
 def handlers : List (String × Handler) :=
-  [("c20.cal", handleCal), ("c20.sched", handleSched), ("c20.send", handleSend)]
+  [("c20.cal", handleCal), ("c20.sched", handleSched), ("c20.send", handleSend), ("c20.guard", handleGuard)]
 end Drv.C20
